@@ -22,7 +22,7 @@ LEVEL = "exploration"
 RULE = (
     "case kinds: eqs = a real search (class with 0-2 statistics x pack x database); each equation of the "
     "returned specification is checked by substituting true truncated series (order N) for every class "
-    "function and requiring the numerator of the residual to vanish modulo x^(N+1); genf = a "
+    "function and requiring the numerator of the residual to vanish modulo x^(N+1), the label of every class has to lead back to that class, and the same is judged on the specification after its verified classes were expanded; genf = a "
     "statistic-free search with <= 12 rules, get_genf() solved by sympy under a watchdog and its Taylor "
     "coefficients compared with brute-force counts to order 12. non-trivial = eqs: >= 4 equations incl. a "
     "product or a non-plain rule form; genf: a closed form was returned for a recursive specification; "
